@@ -571,7 +571,7 @@ impl PathRouter {
                             let stripped: String = parsed_prefix
                                 .raw
                                 .chars()
-                                .dropping_back(details.end - details.start)
+                                .dropping_back(details.end - details.start + 1)
                                 .collect();
                             fallback_path = Some(format!("{stripped}{{*catch_all}}"));
                         }
@@ -587,7 +587,10 @@ impl PathRouter {
                     // TODO: should we warn the user about this?
                     continue;
                 } else {
-                    unreachable!()
+                    // The prefix can't be turned into a valid catch-all route
+                    // (e.g. `/u{id}` or `/users/{id}x`), so there is no path-based
+                    // fallback to register: the scope-based one is all we have.
+                    continue;
                 }
             }
 
